@@ -458,6 +458,51 @@ func runC05(e *Env) {
 	})
 	e.R.AddPart(ev.Part{Name: "key-change-placements", Enumerated: "4-element progression (chord, chord with bass, rest, chord) x every non-empty subset of positions carrying {key=..} x 6^3 key triples from {C,Cb,F#,Am,Ebm,G#m}; plus the complete 28 x 28 graph of converter-scale changes (state = scale in force, every edge replayed as [chord][chord+key change][chord]); plus, for every ordered pair of keys, the same written note before and after the change; real binary for every 2nd (quick) / all (thorough)", Executions: int64(len(kcases)), States: 28, Transitions: int64(len(kcases)), Exhaustive: true})
 
+	// (b2) long progressions: 130 chords (period 6: I, V7/5, rest, IIm, VIm7, IV/5) with one key
+	// change at every position, and with two key changes (there and back) 50 chords apart
+	longBase := []absChord{{Root: "1"}, {Root: "5", Symbol: "7", Bass: "5"}, {Rest: true}, {Root: "2", Symbol: "m"}, {Root: "6", Symbol: "m7"}, {Root: "4", Bass: "5"}}
+	var lcases []c05Case
+	lkeys := []string{"C", "F#", "Ebm", "Cb", "G#m", "A"}
+	if e.Thorough {
+		lkeys = nil
+		for _, k := range keys {
+			lkeys = append(lkeys, k.String())
+		}
+	}
+	for ki, k := range lkeys {
+		to := lkeys[(ki+1)%len(lkeys)]
+		for p := 0; p < 130; p++ {
+			var cs []absChord
+			for i := 0; i < 130; i++ {
+				c := longBase[i%len(longBase)]
+				if i == p {
+					c.Key = to
+				}
+				if i == p+50 {
+					c.Key = k
+				}
+				cs = append(cs, c)
+			}
+			lcases = append(lcases, c05Case{Key: k, Chords: cs, Path: "lib"})
+		}
+	}
+	mc.ParFor(len(lcases), func(i int) {
+		c := lcases[i]
+		if _, _, ok := c05Render(c.Key, c.Chords); !ok {
+			panic("C05 harness: a long progression cannot be spelled in key " + c.Key)
+		}
+		c05Eval(e, &c, true)
+		e.R.Trace(1)
+		e.R.Transition(130)
+		if i%20 == 0 {
+			cc := lcases[i]
+			cc.Path = "cli"
+			c05Eval(e, &cc, true)
+		}
+	})
+	e.R.NonTrivialN(int64(len(lcases)))
+	e.R.AddPart(ev.Part{Name: "long-progressions", Enumerated: fmt.Sprintf("progressions of 130 chords (period 6: I, V7/5, rest, IIm, VIm7, IV/5) in %d keys with a key change at every position p and the change back at p+50: degree text and note-name text convert to the same bytes; in-process, every 20th through the real binary", len(lkeys)), Executions: int64(len(lcases)), Transitions: int64(130 * len(lcases)), Exhaustive: true})
+
 	// (c) transposition
 	var tc []c05Transpose
 	for d := range c05Docs() {
